@@ -48,8 +48,15 @@ def run_scratch(sid, checks):
     scratch = "/tmp/seeded_scratch_%s" % sid
     sh("rm -rf %s && mkdir -p %s && cp -r /repo/eliot %s/eliot" % (scratch, scratch, scratch))
     r = sh("cd %s && patch -p1 < %s" % (scratch, patch))
+    base_note = "scratch copy of /repo HEAD + patch (ELIOT_SRC)"
     if r.returncode:
-        sys.exit("patch does not apply: " + r.stdout + r.stderr)
+        # written against an earlier /repo commit and overlapping a later fix: use that commit's tree
+        base = json.load(open(os.path.join(d, "meta.json"))).get("base_commit", "9168f63")
+        sh("rm -rf %s && mkdir -p %s && git -C /repo archive %s eliot | tar -x -C %s" % (scratch, scratch, base, scratch))
+        r = sh("cd %s && patch -p1 < %s" % (scratch, patch))
+        base_note = "scratch copy of /repo at %s (the commit it was written against) + patch (ELIOT_SRC)" % base
+        if r.returncode:
+            sys.exit("patch does not apply: " + r.stdout + r.stderr)
     out = {}
     try:
         for c in checks:
@@ -59,7 +66,7 @@ def run_scratch(sid, checks):
             summary = lines[-1] if lines else ""
             m = re.search(r"violations: (.*)$", summary)
             viol = [l for l in lines if l.startswith("VIOLATION")]
-            out[c] = {"exit": p.returncode, "violation_lines": len(viol), "how": "scratch copy of /repo + patch (ELIOT_SRC)",
+            out[c] = {"exit": p.returncode, "violation_lines": len(viol), "how": base_note,
                       "signatures": m.group(1)[:600] if m else "", "caught": p.returncode == 1 and bool(viol)}
             print(c, "exit", p.returncode, "|", summary[:300])
     finally:
